@@ -1,4 +1,5 @@
 import Driver.Codec
+import Driver.Extra
 import Rbacx.Spec.Combining
 /-
   Driver.Main — one JSON command per input line, one JSON answer per output line.
@@ -138,7 +139,10 @@ def handle (j : Json) : Except String Json := do
     let ctx ← fieldVal j "ctx"
     let (ok, ch) := checkObligations o (fieldStr j "decision") obls.asList ctx
     pure (Json.mkObj [("ok", .bool ok), ("challenge", encOptStr ch)])
-  | _ => throw s!"unknown cmd {cmd}"
+  | _ =>
+    match extraHandlers.findSome? (fun h => h cmd j) with
+    | some r => r
+    | none => throw s!"unknown cmd {cmd}"
 
 partial def loop (hin hout : IO.FS.Stream) : IO Unit := do
   let line ← hin.getLine
